@@ -32,6 +32,9 @@ type stats struct {
 	evals, transitions, executions, staleServed, mockBatchScanDiverged atomic.Int64
 	convSkipped, convServed, convRounds, convChecked, groupUnknown     atomic.Int64
 	diverged, dups, deadInstances, nontrivial                          atomic.Int64
+	// reload-scheduled cache states: lookups executed (with oracles) on an entry flagged for reload,
+	// new states holding an entry flagged needReloadOnAccess / needDelayedReloadPending / ...Ready
+	reloadLookups, stOnAccess, stPending, stReady, stAnyReload atomic.Int64
 }
 
 // ---------- alphabet ----------
@@ -45,6 +48,8 @@ type alphaSpec struct {
 	splitLeft                        bool
 	maxBack                          int
 	peers, stores, emptyKey          bool
+	sched                            bool // reload-scheduling letters: sched(k) = OnSendFail(scheduleReload), selm(k) = replica selector sees a stale store epoch
+	noInval                          bool // leave out inval/expire/drop (the reload part: those states are the main plans' business)
 }
 
 func genBatches(bounds []int, maxRanges int) [][][2]int {
@@ -108,12 +113,23 @@ func buildAlphabet(s alphaSpec) []Op {
 		}
 	}
 	sub(nil, 0)
-	for _, kind := range []string{"inval", "expire"} {
+	cacheKinds := []string{"inval", "expire"}
+	if s.noInval {
+		cacheKinds = nil
+	}
+	if s.sched {
+		cacheKinds = append(cacheKinds, "sched", "selm")
+	}
+	for _, kind := range cacheKinds {
 		for _, k := range s.cacheKeys {
 			a = append(a, Op{Kind: kind, K: k})
 		}
 	}
-	a = append(a, Op{Kind: "gc"}, Op{Kind: "drop"}, Op{Kind: "bgtick"})
+	a = append(a, Op{Kind: "gc"})
+	if !s.noInval {
+		a = append(a, Op{Kind: "drop"})
+	}
+	a = append(a, Op{Kind: "bgtick"})
 	for _, k := range s.splitKeys {
 		a = append(a, Op{Kind: "split", K: k})
 	}
@@ -410,6 +426,7 @@ func (x *explorer) search(mvccs []mocktikv.MVCCStore) {
 			if w.nontrivial() {
 				x.st.nontrivial.Add(1)
 			}
+			w.countReloadState()
 			w.check = true
 			w.report = func(key, what string) {
 				x.coll.add(key, what, d+1, i, 1<<30, func() replay { return mkReplay(x.cfg, h, true) })
@@ -507,6 +524,7 @@ func main() {
 	replayFile := flag.String("replay", "", "re-run the op sequence of a replay file")
 	depthFlag := flag.Int("depth", 0, "override search depth (both modes)")
 	modeFlag := flag.String("mode", "", "plain|codec: run only this mode")
+	planFlag := flag.String("plan", os.Getenv("VERIF_ONLY"), "run only the plans whose name contains this substring (also env VERIF_ONLY); the evidence is then marked not exhaustive")
 	flag.Parse()
 
 	log.ReplaceGlobals(zap.NewNop(), &log.ZapProperties{Level: zap.NewAtomicLevel()})
@@ -534,6 +552,7 @@ func main() {
 		cfg   config
 		spec  alphaSpec
 		depth int
+		roots []string // names of rootSets entries; nil = the two cold roots
 	}
 	base := config{maxRegions: 4, maxBack: 1, budgetMs: 20000, fixMockBatchScan: true}
 	codecOf := func(c config) config { c.codec = true; return c }
@@ -552,21 +571,52 @@ func main() {
 		maxBatch: 3, batchBounds: all, groupMax: 3, maxBack: 2, splitLeft: true, peers: true, stores: true, emptyKey: true}
 	fullCfg := base
 	fullCfg.maxBack = 2
+	// Reload-scheduled cache states are first-class letters of every alphabet: sched(k) and selm(k)
+	// (see world.apply); gc turns a pending delayed reload into a ready one.
+	small.sched, medium.sched, full.sched = true, true, true
+	// The reload part: its own search from WARM roots (all three regions cached; the second root
+	// additionally has [,b) flagged reload-on-access, [b,d) delayed-reload-ready and store 1's epoch
+	// stale), so that  schedule -> topology change / stale PD answer -> lookup  chains fit into the
+	// depth. Every lookup API, every pool key (LocateEndKey exactly on region borders included),
+	// topology letters, stale PD answers; no invalidate / expire / drop letters (main plans).
+	reload := alphaSpec{splitKeys: all, lookupKeys: all, cacheKeys: all, rangeStarts: all,
+		maxBatch: 2, batchBounds: []int{0, 2, 4}, groupMax: 2, maxBack: 1, peers: true, sched: true, noInval: true}
+	reloadFull := reload
+	reloadFull.rangeStarts, reloadFull.batchBounds, reloadFull.maxBack, reloadFull.stores, reloadFull.splitLeft = []int{-1, 0, 1, 2, 3, 4}, all, 2, true, true
+	warm := []string{"warm3", "warm3-reload-scheduled"}
 	var plans []plan
 	if run.Quick() {
 		mc := medium
 		mc.stores, mc.peers = false, false
+		rc := reload
+		rc.peers = false
 		plans = []plan{
-			{"plain/medium", base, medium, 4},
-			{"codec/medium-no-store-peer-ops", codecOf(base), mc, 3},
+			{"plain/medium", base, medium, 4, nil},
+			{"codec/medium-no-store-peer-ops", codecOf(base), mc, 3, nil},
+			{"plain/reload-scheduled", base, reload, 4, warm},
+			{"codec/reload-scheduled-no-peer-ops", codecOf(base), rc, 3, warm},
 		}
 	} else {
 		plans = []plan{
-			{"plain/full", fullCfg, full, 4},
-			{"codec/full", codecOf(fullCfg), full, 4},
-			{"plain/medium", base, medium, 5},
-			{"plain/small", smallCfg, small, 6},
+			{"plain/full", fullCfg, full, 4, nil},
+			{"codec/full", codecOf(fullCfg), full, 4, nil},
+			{"plain/medium", base, medium, 5, nil},
+			{"plain/small", smallCfg, small, 6, nil},
+			{"plain/reload-scheduled", base, reload, 5, warm},
+			{"plain/reload-scheduled-full", fullCfg, reloadFull, 4, warm},
+			{"codec/reload-scheduled", codecOf(base), reload, 4, warm},
 		}
+	}
+	s3 := []Op{{Kind: "split", K: 1}, {Kind: "split", K: 3}}
+	w3 := append(append([]Op{}, s3...), Op{Kind: "range", R: [][2]int{{0, inf}}})
+	rootSets := map[string]struct {
+		ops  []Op
+		desc string
+	}{
+		"cold1":                  {nil, "1 region, cold cache"},
+		"cold3":                  {s3, "3 regions [,b) [b,d) [d,+inf), cold cache"},
+		"warm3":                  {w3, "3 regions [,b) [b,d) [d,+inf), all cached (LocateKeyRange(a,+inf))"},
+		"warm3-reload-scheduled": {append(append([]Op{}, w3...), Op{Kind: "sched", K: 0}, Op{Kind: "selm", K: 2}, Op{Kind: "gc"}), "3 regions all cached; OnSendFail(scheduleReload) on [,b) -> needReloadOnAccess and store 1 epoch stale; replica selector on [b,d) + one gc round -> needDelayedReloadReady"},
 	}
 
 	workers := runtime.NumCPU()
@@ -588,18 +638,32 @@ func main() {
 		if *modeFlag != "" && *modeFlag != p.cfg.mode() {
 			continue
 		}
+		if *planFlag != "" && !strings.Contains(p.name, *planFlag) {
+			run.Incomplete("plan " + p.name + " skipped by -plan/VERIF_ONLY=" + *planFlag)
+			continue
+		}
 		if *depthFlag > 0 {
 			p.depth = *depthFlag
 		}
 		cfg := p.cfg
+		if p.roots == nil {
+			p.roots = []string{"cold1", "cold3"}
+		}
+		var roots [][]Op
+		var rootDesc []string
+		for _, rn := range p.roots {
+			roots = append(roots, rootSets[rn].ops)
+			rootDesc = append(rootDesc, rootSets[rn].desc)
+		}
 		x := &explorer{global: global, run: run, cfg: &cfg, alpha: buildAlphabet(p.spec), depth: p.depth, st: st, coll: coll,
-			outcomes: outcomes, samples: samples, workers: workers,
-			roots: [][]Op{{}, {{Kind: "split", K: 1}, {Kind: "split", K: 3}}}}
+			outcomes: outcomes, samples: samples, workers: workers, roots: roots}
 		fmt.Fprintf(os.Stderr, "c09 %s: alphabet %d ops, depth %d, %d workers\n", p.name, len(x.alpha), p.depth, workers)
+		div0, rl0 := st.diverged.Load(), st.reloadLookups.Load()
 		x.search(mvccs)
 		states = len(global)
 		bounds[p.name] = map[string]any{"depth_requested": p.depth, "depth_completed": x.maxDepth, "alphabet_ops": len(x.alpha),
-			"new_states_per_depth": x.perDepth, "roots": []string{"1 region, cold cache", "3 regions [,b) [b,d) [d,+inf), cold cache"}, "key_pool": pool, "max_regions": cfg.maxRegions, "stores": 3, "stale_tables_back": cfg.maxBack}
+			"new_states_per_depth": x.perDepth, "roots": rootDesc, "reload_scheduling_letters": p.spec.sched,
+			"lookups_on_reload_scheduled_entry": st.reloadLookups.Load() - rl0, "replay_divergences": st.diverged.Load() - div0, "key_pool": pool, "max_regions": cfg.maxRegions, "stores": 3, "stale_tables_back": cfg.maxBack}
 	}
 
 	keys := make([]string, 0, len(coll.m))
@@ -652,24 +716,31 @@ func main() {
 		"traces_validated_against_impl": st.executions.Load() + st.convChecked.Load(),
 		"evaluations":                   st.evals.Load(),
 		"distinct_nontrivial":           st.nontrivial.Load(),
-		"rule": "BFS over op histories from a cold cache on a 3-store mock cluster (roots: 1 region; 3 regions), one search per plan (mode x alphabet x depth, see bounds), states counted once across plans of a mode; every enabled op of the alphabet is executed on a fresh instance after replaying the history; " +
+		"rule": "BFS over op histories on a 3-store mock cluster (main plans: cold roots with 1 region / 3 regions; reload-scheduled plans: warm 3-region roots, one of them with entries already flagged needReloadOnAccess and needDelayedReloadReady), one search per plan (mode x alphabet x depth, see bounds), states counted once across plans of a mode; every enabled op of the alphabet is executed on a fresh instance after replaying the history; " +
 			"states = distinct canonical (ground truth, cache dump, armed stale answer, older tables); non-trivial = cluster has >= 2 regions and the cache holds >= 1 entry; " +
-			"every new state also gets the terminal convergence check (Get of every pool key must be served by the true leader)",
-		"bounds":                    bounds,
-		"distinct_outcomes":         len(outList),
-		"outcome_counts":            outcomes,
-		"duplicate_successors":      st.dups.Load(),
-		"stale_pd_answers_served":   st.staleServed.Load(),
-		"convergence_states":        st.convChecked.Load(),
-		"convergence_gets_served":   st.convServed.Load(),
-		"convergence_gets_skipped":  st.convSkipped.Load(),
-		"convergence_rounds_total":  st.convRounds.Load(),
-		"replay_divergences":        st.diverged.Load(),
-		"instances_lost_to_panic":   st.deadInstances.Load(),
-		"group_unknown_version":     st.groupUnknown.Load(),
-		"mock_batchscan_divergence": st.mockBatchScanDiverged.Load(),
-		"violation_counts":          vcount,
-		"samples":                   samples.List(),
+			"every new state also gets the terminal convergence check (Get of every pool key must be served by the true leader); " +
+			"reload-scheduled cache states are letters of every alphabet: sched(k) = GetTiKVRPCContext + OnSendFail(scheduleReload=true) on the cached entry of k, selm(k) = replica selector of a mixed replica read on an entry with a stale store epoch (-> needDelayedReloadPending), gc = one GC round (-> needDelayedReloadReady); " +
+			"lookups_on_reload_scheduled_entry counts judged lookups that had to consult a usable entry flagged for reload, states_with_* count new states holding such an entry; a violation of such a lookup carries the key suffix :on-reload-scheduled-entry",
+		"bounds":                                  bounds,
+		"distinct_outcomes":                       len(outList),
+		"outcome_counts":                          outcomes,
+		"duplicate_successors":                    st.dups.Load(),
+		"stale_pd_answers_served":                 st.staleServed.Load(),
+		"convergence_states":                      st.convChecked.Load(),
+		"convergence_gets_served":                 st.convServed.Load(),
+		"convergence_gets_skipped":                st.convSkipped.Load(),
+		"convergence_rounds_total":                st.convRounds.Load(),
+		"replay_divergences":                      st.diverged.Load(),
+		"instances_lost_to_panic":                 st.deadInstances.Load(),
+		"group_unknown_version":                   st.groupUnknown.Load(),
+		"mock_batchscan_divergence":               st.mockBatchScanDiverged.Load(),
+		"lookups_on_reload_scheduled_entry":       st.reloadLookups.Load(),
+		"states_with_reload_scheduled_entry":      st.stAnyReload.Load(),
+		"states_with_need_reload_on_access":       st.stOnAccess.Load(),
+		"states_with_need_delayed_reload_pending": st.stPending.Load(),
+		"states_with_need_delayed_reload_ready":   st.stReady.Load(),
+		"violation_counts":                        vcount,
+		"samples":                                 samples.List(),
 	}
 	pprof.StopCPUProfile()
 	run.Finish(cov, []string{
@@ -681,5 +752,7 @@ func main() {
 		"stale PD answer = the next region query (GetRegion/GetPrevRegion/GetRegionByID/ScanRegions/BatchScanRegions) is answered once from a complete older region table",
 		"mocktikv pdClient.BatchScanRegions drops an unbounded range that follows another range; the PD wrapper recomputes such answers from Cluster.ScanRegions (counted in mock_batchscan_divergence)",
 		"merge keeps the left region's id (mock limitation); GroupSortedMutationsByRegion (txnkv/transaction, unexported) is not driven",
+		"reload scheduling: sched(k) is the single OnSendFail(scheduleReload=true, err) call the sender makes when its failed-store set covers the region (earlier failures of the same sender may have hit other regions); selm(k) runs newReplicaSelector + nextForReplicaReadMixed and drops the request before buildRPCContext (the randomly chosen target is discarded, only the deterministic flag / invalidation effects stay); the forwarding-proxy exhaustion path (enableForwarding) sets the same needReloadOnAccess flag and is not driven separately",
+		"a lookup violation gets the suffix :on-reload-scheduled-entry only when the call consumed no stale PD answer (a stale answer keeps the key ...:after-stale-pd-answer)",
 	})
 }
